@@ -161,7 +161,9 @@ def doRun (args : List String) : Option String := do
   let c02v := valMon cs.passes cs.prog cs.F cs.calls.length cs.trace cs.obs
   let c06k := keyMon cs.passes cs.prog cs.F cs.calls.length cs.trace
   let verdicts := monitorVerdicts2 cs.prog cs.F cs.calls cs.trace ++ (if c03s then " C03s=1" else " C03s=0") ++
-    (if c02v then " C02v=1" else " C02v=0") ++ (if c06k then " C06k=1" else " C06k=0")
+    (if c02v then " C02v=1" else " C02v=0") ++ (if c06k then " C06k=1" else " C06k=0") ++
+    -- C07 / C06 (call limit): an acyclic program never ends a call with "called too many times"
+    (if callLimitMon cs.prog cs.F cs.calls.length cs.trace then " C07a=1" else " C07a=0")
   match replayIdx cs.prog cs.F (init cs.calls.length) cs.trace 0 with
   | .error i => some s!"reject step={i} {verdicts}"
   | .ok c =>
